@@ -598,7 +598,87 @@ def enum_destruction(meta, tier, sel):
             yield ops
 
 
+
+# ---- C02: ranking of candidates by pending earlier steps across one or two sequences -------------------------
+def enum_seq_rank(meta, tier, sel):
+    """fillers (optional entries) in s1 and s2, candidate X (in s1, s2 or both), more fillers, candidate Y
+    (unsequenced, s1, s2 or both); X and Y both accept argument 0. The designated handler is the one that
+    passes over the fewest pending steps (max over its sequences), newest on ties."""
+    pools = ['f_rt_q1_seqfirst', 'f_allow_q1', 'f_rt_q1_limfirst']
+    mem_x = [(0,), (1,), (0, 1)]
+    mem_y = [(), (0,), (1,), (0, 1)]
+    bnds = [(0, INF), (1, 2)] if tier == 'quick' else [(0, INF), (1, 2), (0, 1), (2, 2)]
+    for n1 in range(3):
+        for n2 in range(3):
+            for mx in mem_x:
+                for m1 in range(2):
+                    for my in mem_y:
+                        for bx in bnds:
+                            for by in bnds:
+                                for calls in ((0, 0, 0), (3, 0, 0), (0, 3, 0)):
+                                    if sel.skip(): continue
+                                    c = Ctx(meta)
+                                    ops = []
+                                    o = c.id(); ops.append(('obj', o, 'M'))
+                                    s = [c.id(), c.id()]
+                                    ops.append(('seq', s[0])); ops.append(('seq', s[1]))
+                                    exps = []
+                                    pool_i = [0]
+
+                                    def filler(si):
+                                        for _ in range(len(pools)):
+                                            core = pools[pool_i[0] % len(pools)]
+                                            pool_i[0] += 1
+                                            try:
+                                                sh, slot = c.slot(core)
+                                            except IndexError:
+                                                continue
+                                            e = c.id()
+                                            p = dict(mask=8, val=0, s0=s[si])
+                                            if c.core[core]['rt']:
+                                                p.update(lo=0, hi=INF)
+                                            elif core == 'f_none_q1':
+                                                return None   # a required (1,1) step would block: not a filler
+                                            ops.append(('exp', e, sh, slot, o, p)); exps.append(e)
+                                            return e
+                                        return None
+
+                                    def cand(mem, bnd):
+                                        core = {0: 'f_rt', 1: 'f_rt_q1_limfirst', 2: 'f_rt_q2'}[len(mem)]
+                                        try:
+                                            sh, slot = c.slot(core)
+                                        except IndexError:
+                                            try:
+                                                sh, slot = c.slot('f_rt_q1_seqfirst') if len(mem) == 1 else (None, None)
+                                            except IndexError:
+                                                sh = None
+                                            if sh is None:
+                                                return None
+                                        e = c.id()
+                                        p = dict(mask=1, val=0, lo=bnd[0], hi=bnd[1])
+                                        for j, sj in enumerate(mem):
+                                            p['s%d' % j] = s[sj]
+                                        ops.append(('exp', e, sh, slot, o, p)); exps.append(e)
+                                        return e
+                                    ok = True
+                                    for _ in range(n1):
+                                        ok = ok and filler(0) is not None
+                                    for _ in range(n2):
+                                        ok = ok and filler(1) is not None
+                                    ok = ok and cand(mx, bx) is not None
+                                    for _ in range(m1):
+                                        ok = ok and filler(0) is not None
+                                    ok = ok and cand(my, by) is not None
+                                    if not ok:
+                                        continue
+                                    for a in calls:
+                                        ops.append(('call', o, 'f', a))
+                                    teardown(ops, exps, [o], s)
+                                    yield ops
+
+
 ENUMS = {
+    'seq_rank': enum_seq_rank,
     'seq_own': lambda m, t, sel: enum_sequences(m, t, 'own', sel),
     'seq_overlap': lambda m, t, sel: enum_sequences(m, t, 'overlap', sel),
     'seq_mon': lambda m, t, sel: enum_sequences(m, t, 'mon', sel),
@@ -616,10 +696,10 @@ ENUMS = {
 # property -> enumerators run in addition to the random histories
 PLAN = {
     'C01': ['accept', 'forbid'],
-    'C02': ['seq_overlap', 'forbid'],
+    'C02': ['seq_overlap', 'seq_rank', 'forbid'],
     'C03': ['bounds'],
     'C04': ['lifetime', 'bounds'],
-    'C05': ['seq_own', 'seq_mon', 'seq_overlap'],
+    'C05': ['seq_own', 'seq_mon', 'seq_overlap', 'seq_rank'],
     'C06': ['seq_teardown', 'seq_own'],
     'C07': ['forbid'],
     'C08': ['actions'],
